@@ -148,3 +148,69 @@ modelled_bits! {
         std::mem::forget(decls); std::mem::forget(defs); std::mem::forget(report); std::mem::forget(out); std::mem::forget(ast);
     }
 }
+
+// ---------------------------------------------------------------- C06-e alignment
+
+/// x % y on 16-bit magnitudes (a symbolic 64-bit divider is out of reach for the SAT back end)
+pub fn st_mod16(a: &BigInt, r: &mut diagn::Report, _s: diagn::Span, b: &BigInt) -> Result<BigInt, ()> {
+    let (x, y) = (a.maybe_into::<u16>(), b.maybe_into::<u16>());
+    match (x, y) {
+        (Some(x), Some(y)) => {
+            if y == 0 { r.error("division by zero"); return Err(()); }
+            Ok(BigInt::new((x % y) as u64, None))
+        }
+        _ => { kani::assume(false); Err(()) }
+    }
+}
+
+modelled! {
+    #[kani::unwind(4)]
+    #[kani::stub(customasm::util::BigInt::checked_add, crate::model::st_add)]
+    #[kani::stub(customasm::util::BigInt::checked_mul, crate::model::st_mul)]
+    #[kani::stub(customasm::util::BigInt::checked_mod, st_mod16)]
+    fn c06_e_align_advance() {
+        // [data of s0 bits, #align a, label]: the label's position is the smallest p >= s0 with
+        // (start*unit + p) % a == 0
+        reset_report_model();
+        let mut report = diagn::Report::new();
+        let mut decls = empty_decls();
+        let sym = decls.symbols.verif_push_decl("l", 0, util::SymbolContext::new_global());
+        let mut defs = asm::defs::init();
+        let uk: usize = kani::any(); kani::assume(uk < 3);
+        let unit = [1usize, 8, 16][uk];
+        let start: u8 = kani::any();
+        defs.bankdefs.define(util::ItemRef::new(0), bank(0, unit, start as i64, None, Some(0), false));
+        let s0: usize = kani::any(); kani::assume(s0 < 200);
+        let a: usize = kani::any(); kani::assume(a <= 64);
+        defs.data_elems.define(util::ItemRef::new(0), asm::DataElement { item_ref: util::ItemRef::new(0), position_within_bank: None, encoding_statically_known: true, encoding: BigInt::new(0, Some(s0)), resolved: false });
+        defs.align_directives.define(util::ItemRef::new(0), asm::AlignDirective { item_ref: util::ItemRef::new(0), align_size: a });
+        let lit = || expr::Expr::Literal(sp(), expr::Value::Bool(false));
+        let ast = asm::AstTopLevel { nodes: vec![
+            asm::AstAny::DirectiveData(asm::AstDirectiveData { header_span: sp(), elem_size: None, elems: vec![lit()], item_refs: vec![util::ItemRef::new(0)] }),
+            asm::AstAny::DirectiveAlign(asm::AstDirectiveAlign { header_span: sp(), expr: lit(), item_ref: Some(util::ItemRef::new(0)) }),
+            asm::AstAny::Symbol(asm::AstSymbol { decl_span: sp(), hierarchy_level: 0, name: String::from("l"), kind: asm::AstSymbolKind::Label, no_emit: false, item_ref: Some(sym) }),
+        ] };
+        let mut it = asm::ResolveIterator::new(&ast, &defs, false, false);
+        let mut k = 0;
+        let mut pos_label = 0;
+        while k < 3 {
+            match it.next(&mut report, &decls, &defs) {
+                Ok(Some(ctx)) => { if k == 2 { pos_label = ctx.bank_data.cur_position; } std::mem::forget(ctx); }
+                _ => assert!(false, "iterator ended early"),
+            }
+            k += 1;
+        }
+        let base = start as usize * unit;
+        assert!(pos_label >= s0, "alignment moved backwards");
+        if a == 0 {
+            assert!(pos_label == s0, "alignment 0 is not a no-op while guessing");
+        } else {
+            assert!((base + pos_label) % a == 0, "position after #align is not aligned");
+            assert!(pos_label - s0 < a, "alignment padding is not minimal");
+        }
+        kani::cover!(a == 8 && s0 % 8 == 4 && unit == 8, "half-byte position aligned up");
+        kani::cover!(a == 24 && pos_label > s0, "non power-of-two alignment");
+        kani::cover!(a > 0 && pos_label == s0, "already aligned");
+        std::mem::forget(it); std::mem::forget(decls); std::mem::forget(defs); std::mem::forget(report); std::mem::forget(ast);
+    }
+}
